@@ -281,11 +281,13 @@ class Auditor:
             return "%s by %s" % (ak, fmt(self.ex.operand(t["a"])))
         return ak
 
-    def describe_norm(self, t):
-        """descriptor used as table key: local variable names are erased (a rename must not change a verdict)"""
+    def describe_norm(self, t, upvars=True):
+        """descriptor used as table key: names of locals and of captured variables are erased (a rename must not change a verdict)"""
         def erase(e):
             if isinstance(e, tuple):
                 if e and e[0] == "var":
+                    return ("var", "$")
+                if e and e[0] == "upvar" and upvars:
                     return ("var", "$")
                 return tuple(erase(x) if isinstance(x, tuple) else x for x in e)
             return e
